@@ -7,8 +7,12 @@ import sys
 
 ROOT = os.path.dirname(os.path.dirname(os.path.abspath(__file__)))
 res = json.load(open(f"{ROOT}/seeded/results.json"))
+first = {}
+if os.path.exists(f"{ROOT}/seeded/results_round3_first_run.json"):
+    first = json.load(open(f"{ROOT}/seeded/results_round3_first_run.json"))
 rows = []
 caught = 0
+first_counts = {}
 for seed in sorted(res):
     meta = json.load(open(f"{ROOT}/seeded/{seed}/meta.json"))
     files = ", ".join(os.path.basename(f) for f in meta.get("files_touched", []))[:40]
@@ -24,11 +28,16 @@ for seed in sorted(res):
     obs = sorted(r.get("obligations", []), key=lambda o: (o.startswith(("bounded/", "syntactic/")), o))
     obl = "; ".join(o.split(":", 1)[-1] for o in obs[:2])
     how = r["outcome"] + (" (replayed on the real code)" if r.get("replayed_on_real_code") else (" (`no-failing-input-found`)" if r.get("exit") == 1 else ""))
-    rows.append(f"| {seed} | {files} | {prop} | {how} | {obl[:110]} |")
-table = ["| seed | touches | check | outcome | failed obligation(s) |", "|------|---------|-------|---------|----------------------|"] + rows
+    fr = ""
+    if seed in first:
+        f0 = first[seed].get(seed.split("-")[0]) or next(iter(first[seed].values()))
+        fr = {0: "missed", 1: "CAUGHT", 2: "exit 2", 3: "exit 3"}.get(f0.get("exit"), str(f0.get("exit")))
+        first_counts[fr] = first_counts.get(fr, 0) + 1
+    rows.append(f"| {seed} | {files} | {prop} | {fr or '-'} | {how} | {obl[:110]} |")
+table = ["| seed | touches | check | first run (fresh seeds only) | outcome now | failed obligation(s) |", "|------|---------|-------|------|---------|----------------------|"] + rows
 table.append("")
-table.append(f"Caught (VIOLATION, exit 1): **{caught} of {len(res)}**.  The rest are listed with what the check said; "
-             "`missed` means the change lies in a function that is not under contract (see §9.2 and the evidence `not covered` lists).")
+table.append(f"Caught now (VIOLATION, exit 1): **{caught} of {len(res)}**.  First run of the {sum(first_counts.values())} fresh seeds (`-3`), before any check was touched: "
+             + ", ".join(f"{v} {k}" for k, v in sorted(first_counts.items())) + ".")
 text = "\n".join(table)
 if "--write" in sys.argv:
     p = f"{ROOT}/DESIGN.md"
